@@ -506,6 +506,11 @@ class Run:
 
     def ev_typed(self, node, fr, ty):
         """Evaluate with a type hint for empty displays ([] / {} / set())."""
+        if ty is not None and isinstance(node, ast.IfExp) and not self.spec:
+            c = self.truth(self.ev(node.test, fr))
+            if self.branch(c):
+                return self.ev_typed(node.body, fr, ty)
+            return self.ev_typed(node.orelse, fr, ty)
         if ty is not None:
             if isinstance(node, ast.List) and not node.elts and isinstance(ty, TSeq):
                 return Val(ty, z3.Empty(ty.sort()))
@@ -849,6 +854,28 @@ class Run:
         return VTuple(items)
 
     def ex_List(self, node, fr):
+        if any(isinstance(e, ast.Starred) for e in node.elts):
+            # [*a, x, *b]: concatenation of the starred sequences and the single items
+            parts, ty = [], None
+            vals = [(isinstance(e, ast.Starred), self.ev(e.value if isinstance(e, ast.Starred) else e, fr)) for e in node.elts]
+            conv = []
+            for star, v in vals:
+                if star:
+                    v = ops.iter_to_seq(self, v, node) if not isinstance(v, VTuple) else v
+                    if isinstance(v, Val):
+                        ty = v.ty
+                conv.append((star, v))
+            vals = conv
+            if ty is None:
+                flat = []
+                for star, v in vals:
+                    flat.extend(v.items if star else [v])
+                return ops.seq_from_items(self, flat, None) if flat else (_ for _ in ()).throw(EngineError("empty starred list display"))
+            for star, v in vals:
+                if star and isinstance(v, VTuple):
+                    v = ops.seq_from_items(self, v.items, ty)
+                parts.append(v.t if star else z3.Unit(self.coerce(v, ty.elem).t))
+            return Val(ty, z3.Concat(*parts) if len(parts) > 1 else parts[0])
         items = [self.ev(e, fr) for e in node.elts]
         if not items:
             raise EngineError(f"empty list display without type (line {node.lineno}); declare the variable in the sidecar `locals`")
